@@ -1,5 +1,6 @@
 //! C19: time zone database lookups under caching, refresh and concurrency.
 
+pub mod calib;
 pub mod case;
 pub mod exec;
 pub mod oracle;
